@@ -261,8 +261,8 @@ def check_body(ops, res, c):
 
 
 def plan(tier, seed, build, scale):
-    n = int((1600 if tier == "quick" else 24000) * scale)
-    per = max(1, n // (8 if tier == "quick" else 32))
+    n = int((1600 if tier == "quick" else 100000) * scale)
+    per = max(1, n // (8 if tier == "quick" else 64))
     units = []
     a = 0
     while a < n:
